@@ -4,7 +4,9 @@
 package seq
 
 import (
+	"crypto/sha1"
 	"fmt"
+	"hash/fnv"
 	"runtime/debug"
 	"strings"
 	"sync"
@@ -47,7 +49,7 @@ type Stats struct {
 	States      int64
 	Transitions int64
 	Sequences   int64
-	Outcomes    map[string]bool
+	Outcomes    map[uint64]struct{}
 	Exhaustive  bool
 	DepthDone   int
 	Merged      bool
@@ -96,7 +98,7 @@ func trimStack(st string) string {
 // Explore runs the spec and records a part, samples and violations into r.
 func Explore[S any](r *ev.Run, sp *Spec[S]) *Stats {
 	t0 := time.Now()
-	st := &Stats{Outcomes: map[string]bool{}, Exhaustive: true, Merged: sp.Key != nil}
+	st := &Stats{Outcomes: map[uint64]struct{}{}, Exhaustive: true, Merged: sp.Key != nil}
 	maxV := sp.MaxViolations
 	if maxV == 0 {
 		maxV = 20
@@ -137,10 +139,10 @@ func Explore[S any](r *ev.Run, sp *Spec[S]) *Stats {
 	}
 	type node struct{ path []int }
 	frontier := []node{{nil}}
-	seen := map[string]bool{}
+	seen := map[[16]byte]bool{}
 	if sp.Key != nil {
 		s := sp.New()
-		seen[sp.Key(s)] = true
+		seen[h128(sp.Key(s))] = true
 		st.States = 1
 	}
 	sampled := 0
@@ -167,7 +169,7 @@ func Explore[S any](r *ev.Run, sp *Spec[S]) *Stats {
 				obs, bad := safeStep(op, s)
 				st.Transitions++
 				path := append(append([]int(nil), n.path...), oi)
-				st.Outcomes[op.Name+"→"+obs] = true
+				st.Outcomes[h64(op.Name, obs)] = struct{}{}
 				if bad == "" {
 					bad = safeStr(sp.After, s)
 				}
@@ -192,7 +194,7 @@ func Explore[S any](r *ev.Run, sp *Spec[S]) *Stats {
 					r.Sample(map[string]interface{}{"spec": sp.Name, "ops": names, "last_observation": obs})
 				}
 				if sp.Key != nil {
-					k := sp.Key(s)
+					k := h128(sp.Key(s))
 					if seen[k] {
 						continue
 					}
@@ -223,6 +225,21 @@ func Explore[S any](r *ev.Run, sp *Spec[S]) *Stats {
 	r.AddPart(ev.Part{Name: sp.Name, Evaluations: st.Sequences, States: st.States, Transitions: st.Transitions, Outcomes: int64(len(st.Outcomes)),
 		Exhaustive: st.Exhaustive, Bound: bound, WallS: time.Since(t0).Seconds(), Blocked: true})
 	return st
+}
+
+func h64(a, b string) uint64 {
+	h := fnv.New64a()
+	h.Write([]byte(a))
+	h.Write([]byte{0})
+	h.Write([]byte(b))
+	return h.Sum64()
+}
+
+func h128(k string) [16]byte {
+	x := sha1.Sum([]byte(k))
+	var o [16]byte
+	copy(o[:], x[:16])
+	return o
 }
 
 func firstLine(s string) string {
